@@ -18,10 +18,13 @@ class EnumEval:
 
     def table(self, f, kinds):
         out = {}
+        self.returned = {}
         for k in kinds:
             self.effects = []
+            self.ret_exprs = []
             self._exec(f['body'], k, {})
             out[k] = list(self.effects)
+            self.returned[k] = list(self.ret_exprs)
         return out
 
     # ------------------------------------------------------------------ conditions
@@ -105,6 +108,8 @@ class EnumEval:
         if k == 'return':
             if s.get('e') is not None:
                 self._collect(s['e'])
+                if hasattr(self, 'ret_exprs'):
+                    self.ret_exprs.append(s['e'])
                 if hasattr(self, 'ret'):
                     self.ret.append(self.cond(s['e'], K, env, depth))
             return 'return'
